@@ -3,6 +3,7 @@ package main
 // E4 — call-graph queries: live set, callers, reachability, who-may-write.
 
 import (
+	"go/ast"
 	"go/token"
 	"go/types"
 	"sort"
@@ -164,6 +165,10 @@ type FieldWrite struct {
 	Kind  string    // "store", "mapupdate", "mapdelete", "literal", "clear"
 	Base  ssa.Value // the struct pointer
 	Val   ssa.Value // stored value (store / mapupdate)
+	// When the write sits in a local helper (see OwnerOf), Fn / Instr are the owning
+	// function and its call of the helper, Base / Val are expressed over the owner's values
+	// where they were the helper's parameters, and Orig is the writing instruction itself.
+	Orig ssa.Instruction
 }
 
 // FieldWrites finds every write to field f in the module: direct stores through
@@ -175,20 +180,71 @@ func (p *Program) FieldWrites(f *types.Var, rels ...string) []FieldWrite {
 			switch x := ins.(type) {
 			case *ssa.Store:
 				if fa, ok := x.Addr.(*ssa.FieldAddr); ok && fieldOf(fa.X.Type(), fa.Field) == f {
-					out = append(out, FieldWrite{fn, ins, "store", fa.X, x.Val})
+					out = append(out, FieldWrite{Fn: fn, Instr: ins, Kind: "store", Base: fa.X, Val: x.Val})
 				}
 			case *ssa.MapUpdate:
 				if lastField(x.Map) == f && isDirectFieldLoad(x.Map, f) {
-					out = append(out, FieldWrite{fn, ins, "mapupdate", baseOfFieldLoad(x.Map), x.Value})
+					out = append(out, FieldWrite{Fn: fn, Instr: ins, Kind: "mapupdate", Base: baseOfFieldLoad(x.Map), Val: x.Value})
 				}
 			case *ssa.Call:
 				if b, ok := x.Call.Value.(*ssa.Builtin); ok && (b.Name() == "delete" || b.Name() == "clear") && len(x.Call.Args) > 0 {
 					if isDirectFieldLoad(x.Call.Args[0], f) {
-						out = append(out, FieldWrite{fn, ins, "map" + b.Name(), baseOfFieldLoad(x.Call.Args[0]), nil})
+						out = append(out, FieldWrite{Fn: fn, Instr: ins, Kind: "map" + b.Name(), Base: baseOfFieldLoad(x.Call.Args[0])})
 					}
 				}
 			}
 		})
+	}
+	for i := range out {
+		out[i].Orig = out[i].Instr
+	}
+	return out
+}
+
+// HoistWrites re-expresses writes located in local helpers at the call sites of their owner,
+// climbing until a function the rule knows by name (named) is reached.
+func (p *Program) HoistWrites(ws []FieldWrite, named func(fn *ssa.Function) bool) []FieldWrite {
+	var out []FieldWrite
+	for _, w := range ws {
+		cur := []FieldWrite{w}
+		for step := 0; step < 3; step++ {
+			var next []FieldWrite
+			moved := false
+			for _, x := range cur {
+				owner := x.Fn
+				if named == nil || !named(x.Fn) {
+					owner = p.OwnerOf(x.Fn)
+				}
+				if owner == x.Fn {
+					next = append(next, x)
+					continue
+				}
+				// one step up: every static call site of x.Fn (all in one function by construction of OwnerOf, possibly an intermediate helper)
+				for _, e := range p.Callers(x.Fn) {
+					call, ok := e.Site.(*ssa.Call)
+					if !ok {
+						continue
+					}
+					args := callArgs(&call.Call)
+					tr := func(v ssa.Value) ssa.Value {
+						if v == nil {
+							return nil
+						}
+						if k := paramIndex(x.Fn, v); k >= 0 && k < len(args) {
+							return args[k]
+						}
+						return v
+					}
+					next = append(next, FieldWrite{Fn: e.Caller.Func, Instr: call, Kind: x.Kind, Base: tr(x.Base), Val: tr(x.Val), Orig: x.Orig})
+					moved = true
+				}
+			}
+			cur = next
+			if !moved {
+				break
+			}
+		}
+		out = append(out, cur...)
 	}
 	return out
 }
@@ -242,4 +298,104 @@ func (p *Program) CallSitesOf(id string, liveOnly bool) []ssa.CallInstruction {
 		out = append(out, callSitesIn(fn, false, id)...)
 	}
 	return out
+}
+
+// OwnerOf maps a local helper to the function it was cut out of: an unexported,
+// non-test module function all of whose callers are static calls from one and the
+// same function is "owned" by that function (transitively, at most 3 steps). Rules of
+// the who-may-call / who-may-write kind compare owners, so that moving a few lines into
+// a helper does not create a new, unlisted actor.
+func (p *Program) OwnerOf(fn *ssa.Function) *ssa.Function {
+	return p.ownerChain(fn, nil)
+}
+
+// OwnedBy reports whether fn is owner, or a local helper (transitively) cut out of owner.
+func (p *Program) OwnedBy(fn, owner *ssa.Function) bool {
+	if fn == owner {
+		return true
+	}
+	return p.ownerChain(fn, owner) == owner
+}
+
+func (p *Program) ownerChain(fn, stopAt *ssa.Function) *ssa.Function {
+	for step := 0; step < 3; step++ {
+		if stopAt != nil && fn == stopAt {
+			return fn
+		}
+		if fn == nil || !InModule(fn) || fn.Parent() != nil || fn.Synthetic != "" || ast.IsExported(fn.Name()) {
+			return fn
+		}
+		var owner *ssa.Function
+		ok := true
+		edges := p.Callers(fn)
+		if len(edges) == 0 {
+			return fn
+		}
+		for _, e := range edges {
+			if e.Site == nil || e.Site.Common().StaticCallee() != fn {
+				ok = false
+				break
+			}
+			if _, isGo := e.Site.(*ssa.Go); isGo {
+				ok = false // a goroutine entry is an actor of its own
+				break
+			}
+			c := e.Caller.Func
+			if c.Pkg != fn.Pkg {
+				ok = false
+				break
+			}
+			if owner == nil {
+				owner = c
+			} else if owner != c {
+				ok = false
+				break
+			}
+		}
+		if !ok || owner == nil || owner == fn {
+			return fn
+		}
+		// the helper must not be used as a value anywhere
+		if fn.Referrers() != nil {
+			for _, r := range *fn.Referrers() {
+				if cc := callCommon(r); cc == nil || cc.Value != ssa.Value(fn) {
+					return fn
+				}
+			}
+		}
+		fn = owner
+	}
+	return fn
+}
+
+// eachOwnedInstr visits the instructions of fn and of the local helpers cut out of it
+// (OwnerOf(helper) == fn), once per call site of a helper. tr re-expresses a helper's
+// parameter as the argument passed at that call site (recursively up to fn); other values
+// are returned unchanged.
+func (p *Program) eachOwnedInstr(fn *ssa.Function, visit func(in *ssa.Function, ins ssa.Instruction, tr func(ssa.Value) ssa.Value)) {
+	var rec func(f *ssa.Function, tr func(ssa.Value) ssa.Value, depth int)
+	rec = func(f *ssa.Function, tr func(ssa.Value) ssa.Value, depth int) {
+		eachInstr(f, func(ins ssa.Instruction) {
+			visit(f, ins, tr)
+			call, ok := ins.(*ssa.Call)
+			if !ok || depth >= 3 {
+				return
+			}
+			g := staticCallee(&call.Call)
+			if g == nil || g == f || g == fn || len(g.Blocks) == 0 || !p.OwnedBy(g, fn) {
+				return
+			}
+			args := callArgs(&call.Call)
+			rec(g, func(v ssa.Value) ssa.Value {
+				if v == nil {
+					return nil
+				}
+				if k := paramIndex(g, v); k >= 0 && k < len(args) {
+					return tr(args[k])
+				}
+				return v
+			}, depth+1)
+		})
+	}
+	rec(fn, func(v ssa.Value) ssa.Value { return v }, 0)
 }
